@@ -1,9 +1,20 @@
 """Typed random program generator for the program-level lanes (L7/L8/L9).
 Programs are surface ASTs (see sast.py).  Every program declares a logging cell and a
-logging function `t(n)` so that evaluation order and effects are visible in the result."""
+logging function `t(n)` so that evaluation order and effects are visible in the result.
+
+Besides the type-directed expression grammar the generator knows a number of SHAPES (see `line`):
+functions with several parameters of assorted types and functions returning closures (every
+construct can occur inside the inner closure, which captures parameters, cells and run-time values),
+modules in value position, shadowing of a visible name by every kind of binder at ANOTHER type
+followed by a use of the outer name, run-once loops with conditional break/continue nested in
+other loops, `match` on constants with run-time candidates, pruned branches holding a single
+declaration, compound assignments with effectful targets / self-writing right operands, array
+cells, union element types, `any` parameters, untyped `mut` of union-typed parameters."""
+import copy
+
 from .sast import I, B, S, V, VOID, Str
 
-INT, BOOL, FLOAT, STRING = "int", "bool", "float", "string"
+INT, BOOL, FLOAT, STRING, ANY = "int", "bool", "float", "string", "any"
 ARR_INT = ["arr", "int"]
 ARR_STR = ["arr", "string"]
 TUP_IB = ["tup", "int", "bool"]
@@ -15,13 +26,35 @@ FN_II = ["fun", ["int"], "int"]
 FN_IB = ["fun", ["int"], "bool"]
 U_IS = ["multi", "int", "string"]
 U_IV = ["multi", "int", "void"]
-ALL_TYPES = [INT, BOOL, FLOAT, STRING, ARR_INT, ARR_STR, TUP_IB, ST, MUT_INT, MUT_ARR, IT_INT, FN_II, FN_IB,
+# union element types, arrays of cells, cells of unions / of arrays of unions, functions yielding cells
+U_IF = ["multi", "int", "float"]
+ARR_IF = ["arr", U_IF]
+ARR_IS = ["arr", U_IS]
+ARR_MUT = ["arr", MUT_INT]
+MUT_U = ["mut", U_IS]
+MUT_AIF = ["mut", ARR_IF]
+FN_CELL = ["fun", [], MUT_INT]
+FN_0I = ["fun", [], "int"]
+HIDDEN = "hidden!"      # a name that is in scope but never offered (a function's own name inside its body)
+OLD_TYPES = [INT, BOOL, FLOAT, STRING, ARR_INT, ARR_STR, TUP_IB, ST, MUT_INT, MUT_ARR, IT_INT, FN_II, FN_IB,
              U_IS, U_IV]
+NEW_TYPES = [U_IF, ARR_IF, ARR_IS, ARR_MUT, MUT_U, MUT_AIF, FN_CELL, MUT_INT, ARR_IF]
+ALL_TYPES = OLD_TYPES + OLD_TYPES + NEW_TYPES
+# data (no functions, no iterators): may be wrapped in `opaque`, passed for `any`, observed at the end
+DATA_TYPES = [INT, BOOL, FLOAT, STRING, ARR_INT, ARR_STR, TUP_IB, ST, U_IS, U_IF, ARR_IF, ARR_IS]
+PARAM_TYPES = [INT, INT, INT, STRING, BOOL, FLOAT, U_IS, U_IS, ARR_INT, MUT_INT, MUT_INT, TUP_IB, ANY, ANY, ARR_IF, U_IF,
+               MUT_ARR, ST, FN_II, U_IV]
+RET_TYPES = [INT, INT, INT, BOOL, STRING, U_IS, ARR_INT, TUP_IB, FLOAT, ARR_IF, U_IF]
 FLOATS = [0, 4607182418800017408, 4612811918334230528, 4602678819172646912, 4621819117588971520]  # 0,1,2.5,0.5,10
+ASSIGN_OPS = ["=", "+=", "-=", "*=", "/=", "%=", "&=", "|=", "^=", "<<=", ">>=", "**="]
 
 
 def teq(a, b):
     return a == b
+
+
+def is_fun(t):
+    return isinstance(t, list) and t[0] == "fun"
 
 
 class Gen:
@@ -30,9 +63,21 @@ class Gen:
         self.max_depth = max_depth
         self.counter = 0
         self.scopes = [[]]      # list of lists of (name, type)
+        self.paths = []         # (binding, expression, type): fields reachable below a variable (modules)
+        self.exact = []         # bindings whose static type is exactly the declared one (parameters)
+        self.runtime = []       # bindings known not to be compile-time constants (parameters, opaque values, results)
+        self.fn_base = []       # index in `scopes` of the parameter scope of every enclosing function
         self.in_fn = []         # stack of return types
-        self.in_loop = 0
+        self.loops = []         # stack, one entry per enclosing loop: None, or (counter, limit) when a
+        #                         `continue` has to be guarded by the hidden counter (termination)
+        self.pending = []       # (name, type) of outer names shadowed by the construct being generated
+        self.in_mod = 0
+        self.budget = 11        # lines still to be spent on nested constructs (keeps programs small)
         self.stats = {}
+
+    @property
+    def in_loop(self):
+        return len(self.loops)
 
     # ---- environment ----
     DANGEROUS = ["iterator", "default", "func", "mapper", "predicate", "res", "con", "value", "array", "i", "len",
@@ -46,30 +91,124 @@ class Gen:
             return self.r.choice(self.DANGEROUS)
         return f"{base}{self.counter}"
 
-    def bind(self, n, t):
-        self.scopes[-1].append((n, t))
+    def bind(self, n, t, runtime=False):
+        b = (n, t)
+        self.scopes[-1].append(b)
+        if runtime:
+            self.runtime.append(b)
+        return b
 
-    def vars_of(self, t):
+    def captured_runtime(self, t=None):
+        """visible bindings from outside the innermost function that are run-time values (of type t)"""
+        if not self.fn_base:
+            return []
+        outer = [b for sc in self.scopes[:self.fn_base[-1]] for b in sc]
+        return [b for b in self.visible() if any(b is o for o in outer) and any(b is x for x in self.runtime)
+                and (t is None or teq(b[1], t)) and b[0] not in ("log", "t", "std")]
+
+    def push(self, entries=()):
+        self.scopes.append([(n, t) for n, t in entries])
+
+    def pop(self):
+        sc = self.scopes.pop()
+        if self.paths:
+            self.paths = [p for p in self.paths if not any(p[0] is b for b in sc)]
+        if self.exact:
+            self.exact = [e for e in self.exact if not any(e is b for b in sc)]
+        if self.runtime:
+            self.runtime = [e for e in self.runtime if not any(e is b for b in sc)]
+
+    def visible(self):
+        """innermost binding of every visible name, innermost scope first"""
         out = []
         seen = set()
         for sc in reversed(self.scopes):
-            for n, ty in reversed(sc):
-                if n in seen:
+            for b in reversed(sc):
+                if b[0] in seen:
                     continue
-                seen.add(n)
-                if teq(ty, t):
-                    out.append(n)
+                seen.add(b[0])
+                out.append(b)
         return out
 
-    def binder(self, base):
-        """name for a construct-local binding: sometimes an already visible name (shadowing)"""
-        names = [n for sc in self.scopes for n, _ in sc if n not in ("log", "t", "std")]
-        if names and self.r.random() < 0.3:
-            return self.r.choice(names)
+    def lookup(self, name):
+        for sc in reversed(self.scopes):
+            for b in reversed(sc):
+                if b[0] == name:
+                    return b
+        return None
+
+    def vars_of(self, t):
+        return [n for n, ty in self.visible() if teq(ty, t)]
+
+    def refs_of(self, t):
+        """expressions denoting a visible value of type t: variables and fields of modules"""
+        out = [V(n) for n in self.vars_of(t)]
+        for b, e, ty in self.paths:
+            if teq(ty, t) and self.lookup(b[0]) is b:
+                out.append(copy.deepcopy(e))
+        return out
+
+    def binder(self, base, t=None, force=False):
+        """name for a binding: sometimes an already visible name of ANOTHER type (shadowing); the shadowed
+        name is remembered so that the outer name is used again after the construct (see `lines`)"""
+        cands = [b for b in self.visible() if b[0] not in ("log", "t", "std") and b[1] != HIDDEN and not teq(b[1], t)]
+        if cands and self.r.random() < (0.85 if force else 0.3):
+            # inside a function: preferably a captured run-time value
+            cap = [b for b in self.captured_runtime() if any(b is c for c in cands)]
+            b = self.r.choice(cap if cap and self.r.random() < (0.8 if force else 0.5) else cands)
+            self.pending.append(b)
+            self.stat("shadow." + base)
+            return b[0]
         return self.fresh(base)
 
     def stat(self, k):
         self.stats[k] = self.stats.get(k, 0) + 1
+
+    # ---- uses of a name at a given type, visible in the log ----
+    def tcall(self, e):
+        return ["call", V("t"), e]
+
+    def witness(self, x, ty):
+        """a line that uses expression x at type ty (the checker rejects it at another type) and logs
+        something that depends on its value; None when there is no cheap way"""
+        r = self.r
+        self.counter += 1
+        k = I(self.counter)
+        mark = ["block", ["stm", ["expr", self.tcall(k)]]]
+        e = None
+        if ty == INT:
+            e = x
+        elif ty in (STRING, ARR_INT, ARR_STR, ARR_IF, ARR_IS, ARR_MUT):
+            if ty == ARR_INT and r.random() < 0.5:
+                e = ["post", ["post", x, "~"], "$+"]
+            else:
+                e = ["call", ["facc", V("std"), "len"], x]
+        elif ty == BOOL:
+            return ["stm", ["if", x, mark, None]]
+        elif ty == FLOAT:
+            return ["stm", ["if", ["bin", ">=", x, ["c", ["f", FLOATS[1]]]], mark, None]]
+        elif ty == TUP_IB:
+            e = ["tacc", x, 0]
+        elif ty == ST:
+            e = ["facc", x, "a"]
+        elif ty == MUT_INT:
+            e = ["pre", "deref", x]
+        elif ty in (MUT_ARR, MUT_AIF):
+            e = ["call", ["facc", V("std"), "len"], ["pre", "deref", x]]
+        elif ty == FN_II:
+            e = ["call", x, I(r.choice([0, 1, 2]))]
+        elif ty == FN_0I:
+            e = ["call", x]
+        elif ty == FN_IB:
+            return ["stm", ["if", ["call", x, I(r.choice([0, 1, 2]))], mark, None]]
+        elif ty in (U_IS, U_IV, U_IF, ANY) or ty == MUT_U:
+            q = self.fresh("q")
+            src = ["pre", "deref", x] if ty == MUT_U else x
+            return ["stm", ["ifset", q, "int", src, ["block", ["stm", ["expr", self.tcall(V(q))]]],
+                            None if r.random() < 0.5 else mark]]
+        if e is None:
+            return None
+        return ["stm", ["expr", self.tcall(e)]]
 
     # ---- expressions ----
     def small(self):
@@ -81,13 +220,54 @@ class Gen:
         return ["call", V("t"), ["bin", "+", ["bin", "*", e, I(0)], I(self.counter)]] if self.r.random() < 0.5 \
             else ["call", V("t"), e]
 
+    def opaque(self, e):
+        """the same value, but not a compile-time constant"""
+        self.stat("opaque")
+        if self.r.random() < 0.6:
+            return ["at", ["array", e], self.tcall(I(0))]
+        self.counter += 1
+        return ["tacc", ["tuple", e, self.tcall(I(self.counter))], 0]
+
+    def callables(self, t):
+        """visible functions (other than the logger) that yield a t after one or two calls"""
+        out = []
+        for n, ty in self.visible():
+            if n in ("t", "std") or not is_fun(ty):
+                continue
+            if teq(ty[2], t):
+                out.append((n, [ty[1]]))
+            elif is_fun(ty[2]) and teq(ty[2][2], t):
+                out.append((n, [ty[1], ty[2][1]]))
+        return out
+
+    def call_of(self, c, d):
+        self.stat("call.declared")
+        e = V(c[0])
+        for ps in c[1]:
+            e = ["call", e] + [self.arg(p, d) for p in ps]
+        return e
+
+    def arg(self, t, d):
+        r = self.r
+        if t == INT and r.random() < 0.5:
+            return I(r.choice([0, 1, 2, 3]))
+        if t == ANY:
+            t = r.choice(DATA_TYPES)
+        elif t == MUT_INT and not self.vars_of(MUT_INT):
+            return ["mut", None, I(self.small())]
+        return self.expr(t, d + 1)
+
     def expr(self, t, d=0):
         r = self.r
-        vs = self.vars_of(t)
+        vs = self.refs_of(t)
         if vs and r.random() < (0.35 if d < self.max_depth else 0.8):
             self.stat("var")
-            return V(r.choice(vs))
+            return r.choice(vs)
         deep = d >= self.max_depth
+        if not deep and r.random() < 0.12:
+            cs = self.callables(t)
+            if cs:
+                return self.call_of(r.choice(cs), d)
         if t == INT:
             return self.int_expr(d, deep)
         if t == BOOL:
@@ -124,10 +304,13 @@ class Gen:
                 return ["post", self.iter_expr(d + 1), "$]"]
             return ["pre", "deref", self.expr(MUT_ARR, d + 1)] if self.vars_of(MUT_ARR) else ["array", I(1), I(2)]
         if t == ARR_STR:
-            return ["array"] + [self.expr(STRING, d + 1) for _ in range(r.randrange(0, 3))]
+            return ["array"] + [self.expr(STRING, d + 1) for _ in range(r.randrange(1, 3))] \
+                if r.random() < 0.8 else ["bin", "+", ["array", self.expr(STRING, d + 1)], ["array", S("z")]]
         if t == TUP_IB:
             return ["tuple", self.expr(INT, d + 1), self.expr(BOOL, d + 1)]
         if t == ST:
+            if not deep and r.random() < 0.3:
+                return self.mod_struct(d)
             return ["struct", ["a", self.expr(INT, d + 1)], ["b", self.expr(STRING, d + 1)]]
         if t == MUT_INT:
             return ["mut", None if r.random() < 0.5 else "int", self.expr(INT, d + 1)]
@@ -136,26 +319,91 @@ class Gen:
         if t == IT_INT:
             return self.iter_expr(d)
         if t == FN_II:
-            return self.fn_expr([["p" + str(self.counter + 1), "int"]], INT, d)
+            return self.fn_expr([[self.binder("p", INT), "int"]], INT, d)
         if t == FN_IB:
-            return self.fn_expr([["p" + str(self.counter + 1), "int"]], BOOL, d)
+            return self.fn_expr([[self.binder("p", INT), "int"]], BOOL, d)
         if t == U_IS:
             if r.random() < 0.25 and d < self.max_depth:
                 # `it $ "init" (acc: int|string, x: int) -> int {..}`: int|string, the init when `it` is empty
                 self.stat("reduce.general")
                 a, x = self.fresh("a"), self.fresh("x")
-                self.scopes.append([(a, U_IS), (x, INT)])
+                self.push([(a, U_IS), (x, INT)])
                 self.in_fn.append(INT)
                 try:
                     body = [["stm", ["return", ["expr", self.expr(INT, d + 2)]]]]
                 finally:
-                    self.scopes.pop()
+                    self.pop()
                     self.in_fn.pop()
                 src = self.iter_expr(d + 1) if r.random() < 0.5 else ["post", ["slice", self.expr(ARR_INT, d + 2), I(9), None, None], "~"]
                 return ["reduce", src, self.expr(STRING, d + 2), ["fn", [[a, U_IS], [x, INT]], INT, body]]
             return self.expr(INT if r.random() < 0.5 else STRING, d + 1)
         if t == U_IV:
             return self.expr(INT, d + 1) if r.random() < 0.6 else VOID
+        if t == U_IF:
+            k = r.random()
+            if k < 0.2 and not deep and not self.in_fn:
+                return ["at", self.expr(ARR_IF, d + 1), I(r.choice([0, 0, -1]))]
+            return self.expr(INT if k < 0.6 else FLOAT, d + 1)
+        if t == ARR_IF:
+            k = r.random()
+            if deep or k < 0.5:
+                # mixed literal `[1, 2.5]`: element type int|float
+                self.stat("array.mixed")
+                return ["array", self.expr(INT, d + 1), self.expr(FLOAT, d + 1)] + \
+                    [self.expr(r.choice([INT, FLOAT]), d + 1) for _ in range(r.randrange(0, 2))]
+            if k < 0.7:
+                return ["bin", "+", self.expr(r.choice([ARR_IF, ARR_INT]), d + 1), self.expr(ARR_IF, d + 1)]
+            if k < 0.8:
+                return ["slice", self.expr(ARR_IF, d + 1), self.opt_idx(d), self.opt_idx(d), self.opt_step(d)]
+            if k < 0.9 and self.vars_of(MUT_AIF):
+                return ["pre", "deref", V(r.choice(self.vars_of(MUT_AIF)))]
+            return ["array"] + [self.expr(U_IF, d + 1) for _ in range(r.randrange(1, 3))]
+        if t == ARR_IS:
+            return ["array", self.expr(INT, d + 1), self.expr(STRING, d + 1)] + \
+                [self.expr(U_IS, d + 1) for _ in range(r.randrange(0, 2))]
+        if t == ARR_MUT:
+            cells = [V(n) for n in self.vars_of(MUT_INT)]
+            n = r.randrange(1, 3)
+            return ["array"] + [r.choice(cells) if cells and r.random() < 0.7 else ["mut", None, I(self.small())]
+                                for _ in range(n)]
+        if t == MUT_U:
+            ex = [b[0] for b in self.visible() if teq(b[1], U_IS) and any(b is e for e in self.exact)]
+            if ex and r.random() < 0.8:
+                # un-annotated `mut x` of a union-typed parameter: the cell is declared at the union
+                self.stat("mut.untyped-union")
+                return ["mut", None, V(r.choice(ex))]
+            return ["mut", U_IS, self.expr(U_IS, d + 1)]
+        if t == MUT_AIF:
+            return ["mut", ARR_IF, self.expr(r.choice([ARR_IF, ARR_INT]), d + 1)]
+        if t == FN_CELL:
+            cells = self.vars_of(MUT_INT)
+            ret = V(r.choice(cells)) if cells else ["mut", None, I(self.small())]
+            return ["fn", [], MUT_INT, [["stm", ["expr", self.log(I(0))]], ["stm", ["return", ["expr", ret]]]]]
+        if t == FN_0I:
+            return self.fn_expr([], INT, d)
+        if t == ANY:
+            return self.expr(r.choice(DATA_TYPES), d + 1)
+        return self.structural(t, d)
+
+    def structural(self, t, d):
+        """any other type, by its structure"""
+        r = self.r
+        if t == "void":
+            return VOID
+        h = t[0]
+        if h == "multi":
+            return self.expr(r.choice(t[1:]), d + 1)
+        if h == "arr":
+            return ["array"] + [self.expr(t[1], d + 1) for _ in range(r.randrange(1, 3))]
+        if h == "tup":
+            return ["tuple"] + [self.expr(x, d + 1) for x in t[1:]]
+        if h == "mut":
+            return ["mut", t[1], self.expr(t[1], d + 1)]
+        if h == "struct":
+            return ["struct"] + [[k, self.expr(v, d + 1)] for k, v in t[1:]]
+        if h == "fun":
+            self.counter += 1
+            return self.fn_expr([["p%d_%d" % (self.counter, k), p] for k, p in enumerate(t[1])], t[2], d)
         raise ValueError(t)
 
     def nonempty_str(self):
@@ -173,6 +421,46 @@ class Gen:
             return None
         return I(self.r.choice([1, 2, -1, -2, 0, 3]))
 
+    def cell_target(self, d):
+        """target of an assignment to an int cell: a variable, or an expression with an effect of its own
+        (`cells[t(0)]`, a call that logs and returns a cell)"""
+        r = self.r
+        cells = self.refs_of(MUT_INT)
+        k = r.random()
+        if cells and k < 0.4:
+            return r.choice(cells)
+        if k < 0.75:
+            arrs = self.refs_of(ARR_MUT)
+            if arrs and r.random() < 0.6:
+                self.stat("assign.target.at")
+                return ["at", r.choice(arrs), self.log(I(r.choice([0, 0, -1])))]
+            if cells:
+                self.stat("assign.target.at")
+                els = [r.choice(cells) for _ in range(r.randrange(1, 3))]
+                return ["at", ["array"] + els, self.log(I(r.randrange(0, len(els))))]
+        fs = self.refs_of(FN_CELL)
+        if fs and r.random() < 0.7:
+            self.stat("assign.target.call")
+            return ["call", r.choice(fs)]
+        if cells:
+            self.stat("assign.target.call")
+            return ["call", self.expr(FN_CELL, d + 1)]
+        return None
+
+    def assign_expr(self, d):
+        """compound / plain assignment to an int cell (an int expression)"""
+        r = self.r
+        c = self.cell_target(d)
+        if c is None:
+            return None
+        op = r.choice(ASSIGN_OPS)
+        self.stat("assign." + op)
+        if op in ("/=", "%=", "**=", "<<=", ">>=") and r.random() < 0.8:
+            rhs = I(r.choice([1, 2, 3, 63]))
+        else:
+            rhs = self.expr(INT, d + 1)
+        return ["bin", op, c, rhs]
+
     def int_expr(self, d, deep):
         r = self.r
         k = r.random()
@@ -181,34 +469,88 @@ class Gen:
             return I(self.small())
         if k < 0.32:
             return self.log(self.expr(INT, d + 1))
-        if k < 0.55:
+        if k < 0.53:
             op = r.choice(["+", "-", "*", "/", "%", "**", "<<", ">>", "&", "|", "^"])
             self.stat("int.bin." + op)
-            rhs = I(r.choice([0, 1, 2, 3, 63, 64, -1])) if op in ("/", "%", "**", "<<", ">>") and r.random() < 0.7 \
-                else self.expr(INT, d + 1)
+            if op in ("/", "%", "**", "<<", ">>") and self.in_fn:
+                rhs = self.unfoldable_int({"/": [1, 2, 3, -1], "%": [1, 2, 3, -1], "**": [0, 1, 2, 3]}.get(op, [0, 1, 2, 63]))
+            elif op in ("/", "%", "**", "<<", ">>") and r.random() < 0.7:
+                rhs = I(r.choice([0, 1, 2, 3, 63, 64, -1]))
+            else:
+                rhs = self.expr(INT, d + 1)
             return ["bin", op, self.expr(INT, d + 1), rhs]
-        if k < 0.6:
+        if k < 0.58:
             return ["pre", r.choice(["neg", "not"]), self.expr(INT, d + 1)]
         if k < 0.68 and self.vars_of(MUT_INT):
-            c = V(r.choice(self.vars_of(MUT_INT)))
             if r.random() < 0.5:
-                return ["pre", "deref", c]
-            op = r.choice(["=", "+=", "-=", "*=", "/=", "%=", "&=", "|=", "^=", "<<=", ">>=", "**="])
-            self.stat("assign." + op)
-            return ["bin", op, c, self.expr(INT, d + 1)]
-        if k < 0.75:
-            return ["at", self.expr(ARR_INT, d + 1), I(r.randrange(-3, 4))]
-        if k < 0.8:
+                return ["pre", "deref", r.choice(self.refs_of(MUT_INT))]
+            e = self.assign_expr(d)
+            if e is not None:
+                return e
+        if k < 0.74:
+            if self.in_fn:
+                own = self.own_runtime(INT)
+                if own and r.random() < 0.6:
+                    return ["at", self.expr(ARR_INT, d + 1), V(r.choice(own))]
+                els = [self.expr(INT, d + 1) for _ in range(r.randrange(1, 4))]
+                return ["at", ["array"] + els, I(r.randrange(-len(els), len(els)))]
+            a = self.expr(ARR_INT, d + 1)
+            return ["at", a, I(r.choice([0, 0, 0, -1, -1, 1, r.randrange(-3, 4)]))]
+        if k < 0.78:
             return ["tacc", self.expr(TUP_IB, d + 1), 0]
-        if k < 0.84:
+        if k < 0.82:
             return ["facc", self.expr(ST, d + 1), "a"]
-        if k < 0.9:
+        if k < 0.86:
             return ["call", self.expr(FN_II, d + 1), self.expr(INT, d + 1)]
-        if k < 0.94:
-            return ["call", ["facc", V("std"), "len"], self.expr(ARR_INT, d + 1)]
+        if k < 0.89:
+            return ["call", ["facc", V("std"), "len"], self.expr(r.choice([ARR_INT, ARR_INT, STRING, ARR_IF]), d + 1)]
+        if k < 0.95:
+            return self.reduce_init(d)
         op = r.choice(["$+", "$*", "$&", "$|"])
         self.stat("reduce." + op)
         return ["post", self.iter_expr(d + 1), op]
+
+    def own_runtime(self, t):
+        """run-time values of type t that belong to the innermost function itself (parameters, mostly)"""
+        if not self.fn_base:
+            return []
+        own = [b for sc in self.scopes[self.fn_base[-1]:] for b in sc]
+        return [b[0] for b in self.visible() if teq(b[1], t) and any(b is o for o in own) and any(b is x for x in self.runtime)]
+
+    def unfoldable_int(self, safe):
+        """right operand / index of an operation that fails on some values, inside a function body: the
+        function's own parameter (fails, or not, when the operation is evaluated) or a literal on which it
+        cannot fail.  Everything else could be constant when the closure is created, and a failing
+        operation on constants is then reported at that moment -- whether or not it would ever be evaluated
+        (FINDINGS.md, F1), which the constant-hidden twin of lane L8 observes"""
+        own = self.own_runtime(INT)
+        if own and self.r.random() < 0.5:
+            return V(self.r.choice(own))
+        return I(self.r.choice(safe))
+
+    def reduce_init(self, d):
+        """`it $init (acc: int, x: int) -> int {..}`: the initial value is an arbitrary int expression, inside a
+        closure preferably one over a captured run-time value"""
+        r = self.r
+        self.stat("reduce.int-init")
+        init = self.captured_int(d) if r.random() < 0.8 else None
+        if init is None:
+            init = self.expr(INT, d + 1)
+        a, x = self.binder("a", INT), self.fresh("x")
+        f = self.fn_expr([[a, INT], [x, INT]], INT, d + 1, lines_p=0.1)
+        return ["reduce", self.iter_expr(d + 1), init, f]
+
+    def captured_int(self, d):
+        """an int expression over a run-time value captured from outside the innermost function"""
+        r = self.r
+        cs = self.captured_runtime(INT) + self.captured_runtime(MUT_INT)
+        if not cs:
+            return None
+        n, ty = r.choice(cs)
+        e = V(n) if ty == INT else ["pre", "deref", V(n)]
+        if r.random() < 0.3:
+            e = ["bin", r.choice(["+", "-", "*"]), e, I(r.choice([1, 2, 3]))]
+        return e
 
     def bool_expr(self, d, deep):
         r = self.r
@@ -225,7 +567,7 @@ class Gen:
         if k < 0.7:
             return ["pre", "not", self.expr(BOOL, d + 1)]
         if k < 0.78:
-            t = r.choice([ARR_INT, STRING, TUP_IB, ST, FLOAT, U_IS])
+            t = r.choice([ARR_INT, STRING, TUP_IB, ST, FLOAT, U_IS, ARR_IF, U_IF])
             return ["bin", r.choice(["==", "!="]), self.expr(t, d + 1), self.expr(t, d + 1)]
         if k < 0.84:
             return ["bin", r.choice(["&", "|", "^"]), self.expr(BOOL, d + 1), self.expr(BOOL, d + 1)]
@@ -268,130 +610,629 @@ class Gen:
         maker = ["fn", [[c, MUT_INT]], IT_INT, [["stm", ["return", ["expr", ["fn", [], ["tup", "bool", "int"], body]]]]]]
         return ["call", maker, ["mut", None, I(0)]]
 
-    def fn_expr(self, params, ret, d):
+    def fn_expr(self, params, ret, d, lines_p=0.3, selfname=None, n_lines=None):
         self.counter += 1
-        self.scopes.append([(n, t) for n, t in params])
+        self.push([(n, t) for n, t in params])
+        if selfname is not None and not any(n == selfname for n, _ in params):
+            self.scopes[-1].insert(0, (selfname, HIDDEN))
+        self.exact += self.scopes[-1]
+        self.runtime += self.scopes[-1]
+        self.fn_base.append(len(self.scopes) - 1)
         self.in_fn.append(ret)
-        saved_loop, self.in_loop = self.in_loop, 0
+        saved_loop, self.loops = self.loops, []
+        saved_mod, self.in_mod = self.in_mod, 0
+        saved_pending, self.pending = self.pending, []
         try:
             lines = []
-            if self.r.random() < 0.3 and d < self.max_depth:
-                lines += self.lines(self.r.randrange(1, 3), d + 1)
-            lines.append(["stm", ["return", ["expr", self.expr(ret, d + 1)]]])
+            if self.r.random() < lines_p and d < self.max_depth:
+                lines += self.lines(n_lines or self.r.randrange(1, 3), d + 1)
+            lines.append(["stm", ["return", self.ret_stm(ret, d + 1)]])
         finally:
-            self.scopes.pop()
+            self.pop()
             self.in_fn.pop()
-            self.in_loop = saved_loop
+            self.fn_base.pop()
+            self.loops = saved_loop
+            self.in_mod = saved_mod
+            self.pending = saved_pending
         return ["fn", params, ret, lines]
 
+    def ret_stm(self, ret, d):
+        """the operand of a final `return`: an expression, sometimes a value-yielding match / if"""
+        r = self.r
+        if d < self.max_depth and r.random() < 0.15:
+            return self.value_stm(ret, d)
+        if ret == INT and d < self.max_depth and r.random() < 0.15 and (self.captured_runtime(INT) or self.captured_runtime(MUT_INT)):
+            return ["expr", self.reduce_init(d)]
+        return ["expr", self.expr(ret, d)]
+
+    def value_stm(self, t, d):
+        """a statement yielding a value of type t: match / if-else / block"""
+        r = self.r
+        k = r.random()
+        arm = lambda: ["block", ["stm", ["expr", self.expr(t, d + 1)]]]
+        if k < 0.45:
+            self.stat("value.match")
+            return self.const_match(d, arm) if r.random() < 0.6 else \
+                ["match", self.scrutinee(d), ["atype", self.fresh("m"), "int", arm()], ["aother", arm()]]
+        if k < 0.8:
+            self.stat("value.if")
+            return ["if", self.expr(BOOL, d + 1), arm(), arm()]
+        self.stat("value.block")
+        return self.block(r.randrange(0, 2), d + 1, value=t)
+
+    def const_match(self, d, arm):
+        """`match` on a constant (literal, or a variable that may be a captured constant) whose value arms
+        list run-time candidates from a small domain, so that a candidate often equals the scrutinee"""
+        r = self.r
+        self.stat("match.const")
+        ints = self.refs_of(INT)
+        scrut = I(r.choice([0, 1, 2, 3])) if not ints or r.random() < 0.5 else r.choice(ints)
+
+        def cand():
+            k = r.random()
+            if ints and k < 0.6:
+                return r.choice(ints)
+            if k < 0.8:
+                return I(r.choice([0, 1, 2, 3]))
+            return self.expr(INT, d + 2)
+        arms = [["aval", [cand() for _ in range(r.randrange(1, 3))], arm()] for _ in range(r.randrange(1, 3))]
+        if r.random() < 0.3:
+            n = self.binder("m", INT)
+            self.push([(n, INT)])
+            try:
+                arms.append(["atype", n, "int", arm()])
+            finally:
+                self.pop()
+        else:
+            arms.append(["aother", arm()])
+        return ["match", scrut] + arms
+
+    def scrutinee(self, d):
+        """a value of union / any type to test: visible variables of such a type first"""
+        r = self.r
+        cands = [n for n, ty in self.visible() if ty in (U_IS, U_IV, ANY, U_IF)]
+        self.scrut_type = None
+        if cands and r.random() < 0.6:
+            n = r.choice(cands)
+            self.scrut_type = self.lookup(n)[1]
+            return V(n)
+        return self.expr(r.choice([U_IS, U_IV]), d + 1)
+
     # ---- statements ----
-    def block(self, n, d, extra=None):
-        self.scopes.append([])
+    def block(self, n, d, extra=None, value=None):
+        self.push()
         try:
             ls = self.lines(n, d)
             if extra:
                 ls += extra
+            if value is not None:
+                ls.append(["stm", ["expr", self.expr(value, d)]])
         finally:
-            self.scopes.pop()
+            self.pop()
         return ["block"] + ls
 
     def lines(self, n, d):
         out = []
         for _ in range(n):
-            out.append(self.line(d))
+            saved, self.pending = self.pending, []
+            l = self.line(d)
+            mine, self.pending = self.pending, saved
+            if isinstance(l, tuple):
+                out.extend(l)
+            else:
+                out.append(l)
+            # a name shadowed inside the construct: use the OUTER binding again, now that the construct is over
+            # (when this very scope rebound the name, the enclosing scope does it after its construct)
+            for b in mine:
+                if self.lookup(b[0]) is b:
+                    if self.r.random() < 0.8:
+                        w = self.witness(V(b[0]), b[1])
+                        if w is not None:
+                            self.stat("shadow.use-after")
+                            out.append(w)
+                else:
+                    self.pending.append(b)
         return out
+
+    def params(self, n, types=None):
+        ps = []
+        for _ in range(n):
+            t = self.r.choice(types or PARAM_TYPES)
+            p = self.binder("p", t)
+            if any(p == q for q, _ in ps):
+                p = self.fresh("p")
+            ps.append([p, t])
+        return ps
+
+    def decl_line(self, d, force=False):
+        """one declaration: `x := e`, `(a, b) := e` or a function declaration"""
+        r = self.r
+        k = r.random()
+        if k < 0.6:
+            t = r.choice(ALL_TYPES)
+            e = self.expr(t, d + 1)
+            rt = t in (MUT_INT, MUT_ARR, MUT_U, MUT_AIF)
+            if t in DATA_TYPES and r.random() < 0.35:
+                e = self.opaque(e)
+                rt = True
+            n = self.binder("v", t, force) if force or r.random() < 0.5 else self.fresh()
+            self.bind(n, t, rt)
+            self.stat("set")
+            return ["set", n, ["expr", e]]
+        if k < 0.8:
+            e = self.expr(TUP_IB, d + 1)
+            rt = r.random() < 0.3
+            if rt:
+                e = self.opaque(e)
+            a = self.binder("v", INT, force)
+            b = self.binder("v", BOOL, force)
+            if a == b:
+                b = self.fresh()
+            self.bind(a, INT, rt)
+            self.bind(b, BOOL, rt)
+            self.stat("destruct")
+            return ["destruct", [a, b], ["expr", e]]
+        rt_ = r.choice([INT, BOOL])
+        ft = FN_II if rt_ == INT else FN_IB
+        n = self.binder("f", ft, force)
+        p = n if r.random() < 0.1 else self.binder("p", INT)
+        f = self.fn_expr([[p, INT]], rt_, d, selfname=n)
+        self.bind(n, ft)   # bound afterwards: no unguarded recursion
+        self.stat("fndecl")
+        return ["fndecl", n, f[1], f[2], f[3]]
+
+    def fn_scenario(self, d):
+        """a declared function with several parameters of assorted types -- or a function returning a
+        closure over its parameters and locals -- followed by one or two calls"""
+        r = self.r
+        nested = r.random() < 0.45
+        ret = r.choice(RET_TYPES)
+        ps1 = self.params(r.randrange(0 if nested else 1, 3))
+        name = self.binder("f", None)
+        if nested:
+            self.stat("fn.closure")
+            ps2 = self.params(r.randrange(0, 3))
+            ps2 = [[(q if not any(q == p for p, _ in ps1) or r.random() < 0.5 else self.fresh("p")), t] for q, t in ps2]
+            inner_t = ["fun", [t for _, t in ps2], ret]
+            self.push([(n, t) for n, t in ps1])
+            if not any(n == name for n, _ in ps1):
+                self.scopes[-1].insert(0, (name, HIDDEN))
+            self.exact += self.scopes[-1]
+            self.runtime += self.scopes[-1]
+            self.fn_base.append(len(self.scopes) - 1)
+            self.in_fn.append(inner_t)
+            saved_loop, self.loops = self.loops, []
+            saved_mod, self.in_mod = self.in_mod, 0
+            saved_pending, self.pending = self.pending, []
+            try:
+                pre = self.lines(r.randrange(0, 3), d + 1)
+                inner = self.fn_expr(ps2, ret, d, lines_p=0.85, n_lines=r.randrange(1, 4))
+            finally:
+                self.pop()
+                self.in_fn.pop()
+                self.fn_base.pop()
+                self.loops = saved_loop
+                self.in_mod = saved_mod
+                self.pending = saved_pending
+            body = pre + [["stm", ["return", ["expr", inner]]]]
+            ft = ["fun", [t for _, t in ps1], inner_t]
+            decl = ["fndecl", name, ps1, inner_t, body]
+        else:
+            self.stat("fn.multi")
+            f = self.fn_expr(ps1, ret, d, lines_p=0.85, selfname=name, n_lines=r.randrange(1, 4))
+            ft = ["fun", [t for _, t in ps1], ret]
+            decl = ["fndecl", name, ps1, ret, f[3]]
+        self.bind(name, ft)
+        out = [decl]
+        c = (name, [ft[1], ft[2][1]] if nested else [ft[1]])
+        for _ in range(r.randrange(1, 3)):
+            e = self.call_of(c, d)
+            n = self.fresh()
+            self.bind(n, ret, True)
+            out.append(["set", n, ["expr", e]])
+        return tuple(out)
+
+    def bump(self, d):
+        """`c op= b()` where b() itself writes the cell c"""
+        r = self.r
+        out = []
+        cells = self.vars_of(MUT_INT)
+        if cells and r.random() < 0.8:
+            c = r.choice(cells)
+        else:
+            c = self.fresh()
+            out.append(["set", c, ["expr", ["mut", None, I(self.small())]]])
+            self.bind(c, MUT_INT)
+        f = self.fresh("b")
+        self.push()
+        self.in_fn.append(INT)
+        saved_loop, self.loops = self.loops, []
+        try:
+            w = ["bin", r.choice(["=", "+=", "-=", "*=", "|="]), V(c), self.expr(INT, d + 2)]
+            body = [["stm", ["expr", w]], ["stm", ["return", ["expr", self.expr(INT, d + 2)]]]]
+        finally:
+            self.pop()
+            self.in_fn.pop()
+            self.loops = saved_loop
+        out.append(["fndecl", f, [], INT, body])
+        self.bind(f, FN_0I)
+        n = self.fresh()
+        op = r.choice(["+=", "-=", "*=", "&=", "|=", "^=", "+="])
+        self.stat("assign.self-writing-operand")
+        out.append(["set", n, ["expr", ["bin", op, V(c), ["call", V(f)]]]])
+        self.bind(n, INT)
+        return tuple(out)
+
+    def reader(self, d):
+        """a function whose body reads a cell declared earlier; the cell is changed between the declaration
+        of the function and its call"""
+        r = self.r
+        out = []
+        cells = self.vars_of(MUT_INT)
+        if cells and r.random() < 0.8:
+            c = r.choice(cells)
+        else:
+            c = self.fresh()
+            out.append(["set", c, ["expr", ["mut", None, I(self.small())]]])
+            self.bind(c, MUT_INT, True)
+        self.stat("cell.reader")
+        f = self.fresh("g")
+        e = ["pre", "deref", V(c)]
+        if r.random() < 0.5:
+            e = ["bin", r.choice(["+", "*", "-"]), e, I(r.choice([1, 2, 10]))]
+        body = [["stm", ["return", ["expr", e]]]]
+        if r.random() < 0.3:
+            body.insert(0, ["stm", ["expr", ["bin", "+=", V(c), I(1)]]])
+        out.append(["fndecl", f, [], INT, body])
+        self.bind(f, FN_0I)
+        out.append(["stm", ["expr", ["bin", r.choice(["=", "+=", "*=", "-="]), V(c), self.expr(INT, d + 2)]]])
+        n = self.fresh()
+        out.append(["set", n, ["expr", ["call", V(f)]]])
+        self.bind(n, INT, True)
+        return tuple(out)
+
+    def mod_struct(self, d):
+        """`mod { a := ..; b := .. }` where a value of type struct{a: int, b: string} is wanted: the module
+        declares exactly a and b at its top level; other statements go in between"""
+        r = self.r
+        self.stat("mod.struct")
+        self.push()
+        self.in_mod += 1
+        saved, self.pending = self.pending, []
+        try:
+            ls = []
+            fields = [("a", INT), ("b", STRING)]
+            if r.random() < 0.5:
+                fields.reverse()
+            for k, t in fields:
+                if r.random() < 0.4:
+                    ls.append(self.nondecl_line(d + 1))
+                e = self.expr(t, d + 2)
+                ls.append(["set", k, ["expr", e]])
+                self.bind(k, t)
+            if r.random() < 0.3:
+                ls.append(self.nondecl_line(d + 1))
+        finally:
+            self.pop()
+            self.in_mod -= 1
+            self.pending = saved
+        return ["mod"] + ls
+
+    def nondecl_line(self, d):
+        """a line that declares nothing in the scope it stands in"""
+        r = self.r
+        k = r.random()
+        if k < 0.25 and (self.in_fn or self.loops):
+            return self.jump_line(d, uncond=r.random() < 0.5)
+        if k < 0.5:
+            return ["stm", ["expr", self.log(self.expr(INT, d + 1))]]
+        if k < 0.75:
+            return ["stm", self.block(r.randrange(1, 3), d + 1)]
+        return ["stm", self.loop_stm(d + 1)]
+
+    def jump_line(self, d, uncond=False):
+        """`if c { break | continue | return e }`, or the bare jump; a `continue` in a loop whose exit does
+        not depend on a counter is guarded by the loop's hidden counter"""
+        r = self.r
+        kinds = []
+        if self.loops:
+            kinds += ["break", "continue"]
+        if self.in_fn:
+            kinds += ["return"]
+        kind = r.choice(kinds)
+        cond = None if uncond else self.expr(BOOL, d + 1)
+        if kind == "continue" and self.loops[-1] is not None:
+            c, lim = self.loops[-1]
+            g = ["bin", "<", ["pre", "deref", V(c)], I(lim)]
+            cond = g if cond is None else ["bin", "&&", g, cond]
+        self.stat("jump." + kind + (".uncond" if cond is None else ""))
+        if kind == "return":
+            j = ["return", ["expr", self.expr(self.in_fn[-1], d + 1)]]
+            if cond is None:
+                return ["stm", j]
+            return ["stm", ["if", cond, j, None]]
+        if cond is None:
+            return ["stm", kind]
+        body = ["block", ["stm", kind]]
+        if r.random() < 0.25:
+            body = ["block", ["stm", ["expr", self.log(I(0))]], ["stm", kind]]
+        if r.random() < 0.2:
+            return ["stm", ["block", ["stm", ["if", cond, body, None]]]]
+        return ["stm", ["if", cond, body, None]]
+
+    def mod_line(self, d):
+        """`m := mod { .. }` with any lines inside; the declared names become fields `m.x`"""
+        r = self.r
+        self.stat("mod.free")
+        m = self.binder("m", None) if r.random() < 0.3 else self.fresh("m")
+        self.push()
+        self.in_mod += 1
+        saved, self.pending = self.pending, []
+        try:
+            n = r.randrange(1, 4)
+            # inside a function / loop: sometimes a diverging statement with declarations after it
+            pos = r.randrange(0, n) if (self.in_fn or self.loops) and r.random() < 0.3 else -1
+            ls = []
+            for i in range(n):
+                if i == pos:
+                    ls.append(self.jump_line(d + 1, uncond=r.random() < 0.6))
+                ls += self.lines(1, d + 1)
+            fields = []
+            for n, t in self.scopes[-1]:
+                fields = [f for f in fields if f[0] != n] + [(n, t)]
+        finally:
+            self.pop()
+            self.in_mod -= 1
+            self.pending = saved
+        mt = ["struct"] + [[n, t] for n, t in sorted(fields)]
+        b = self.bind(m, mt)
+        for n, t in fields:
+            if t != HIDDEN:
+                self.paths.append((b, ["facc", V(m), n], t))
+        return ["set", m, ["expr", ["mod"] + ls]]
+
+    def pruned(self, d):
+        """a branch that is decided while parsing, holding ONE declaration (of a name that is often visible
+        outside as well)"""
+        r = self.r
+        self.stat("pruned")
+        k = r.random()
+        tv = r.random() < 0.5
+        if k < 0.5:
+            cond = B(tv)
+        elif k < 0.8:
+            cond = ["bin", r.choice(["<", "!="]) if tv else r.choice([">", "=="]), I(1), I(2)]
+        else:
+            cond = ["bin", "||" if tv else "&&", B(tv), self.expr(BOOL, d + 2)]
+
+        def one():
+            self.push()
+            try:
+                return ["block", self.decl_line(d + 1, force=True)]
+            finally:
+                self.pop()
+        k = r.random()
+        if k < 0.2:
+            return ["stm", ["while", B(False) if r.random() < 0.7 else ["bin", ">", I(1), I(2)], one()]]
+        return ["stm", ["if", cond, one(), one() if r.random() < 0.4 else None]]
+
+    def assign_line(self, d):
+        r = self.r
+        k = r.random()
+        if k < 0.5:
+            pre = []
+            if not self.vars_of(MUT_INT):
+                c = self.fresh()
+                pre = [["set", c, ["expr", ["mut", None, self.expr(INT, d + 2)]]]]
+                self.bind(c, MUT_INT, True)
+            e = self.assign_expr(d)
+            if e is not None:
+                return tuple(pre + [["stm", ["expr", e]]])
+        if k < 0.7 and self.vars_of(MUT_ARR):
+            # array cell: `a += [..]`; now and then an array of another element type (to be rejected)
+            t = ARR_INT if r.random() < 0.78 else r.choice([ARR_IF, ARR_STR, ARR_IS, ARR_IF])
+            self.stat("assign.array" + ("" if t == ARR_INT else ".other-type"))
+            op = "+=" if t != ARR_INT else r.choice(["=", "+=", "+="])
+            return ["stm", ["expr", ["bin", op, V(r.choice(self.vars_of(MUT_ARR))), self.expr(t, d + 1)]]]
+        if k < 0.85:
+            # a cell holding [int|float]: `c += [2.5]`, `c += [1]`
+            self.stat("assign.array-of-union")
+            pre = []
+            if not self.vars_of(MUT_AIF):
+                c = self.fresh()
+                pre = [["set", c, ["expr", self.expr(MUT_AIF, d + 1)]]]
+                self.bind(c, MUT_AIF, True)
+            t = ARR_STR if r.random() < 0.06 else r.choice([ARR_IF, ARR_INT])
+            return tuple(pre + [["stm", ["expr", ["bin", r.choice(["=", "+=", "+="]), V(r.choice(self.vars_of(MUT_AIF))),
+                                                  self.expr(t, d + 1)]]]])
+        if self.vars_of(MUT_U):
+            self.stat("assign.cell-of-union")
+            return ["stm", ["expr", ["bin", "=", V(r.choice(self.vars_of(MUT_U))), self.expr(r.choice([INT, STRING]), d + 1)]]]
+        return None
+
+    def union_cell(self, d):
+        """a cell holding int|string -- declared so by annotation, or (inside a function) by an un-annotated
+        `mut p` of a parameter of that type -- that is then assigned the other member"""
+        r = self.r
+        c = self.fresh()
+        e = self.expr(MUT_U, d + 1)
+        if e[0] != "mut":
+            return None
+        out = [["set", c, ["expr", e]]]
+        self.bind(c, MUT_U, True)
+        for _ in range(r.randrange(1, 3)):
+            self.stat("assign.cell-of-union")
+            out.append(["stm", ["expr", ["bin", "=", V(c), self.expr(r.choice([INT, STRING]), d + 2)]]])
+        w = self.witness(V(c), MUT_U)
+        out.append(w)
+        return tuple(out)
+
+    def call_line(self, d):
+        """`r := f(..)` for a declared function"""
+        r = self.r
+        fs = [(n, ty) for n, ty in self.visible() if is_fun(ty) and n not in ("t", "std") and ty != IT_INT]
+        if not fs:
+            return None
+        n, ty = r.choice(fs)
+        pss, res = [ty[1]], ty[2]
+        if is_fun(res) and res != IT_INT:
+            pss.append(res[1])
+            res = res[2]
+        e = self.call_of((n, pss), d)
+        v = self.fresh()
+        self.bind(v, res, True)
+        return ["set", v, ["expr", e]]
 
     def line(self, d):
         r = self.r
         k = r.random()
-        deep = d >= self.max_depth
-        if k < 0.3 or deep:
-            t = r.choice(ALL_TYPES)
-            n = self.fresh()
-            e = self.expr(t, d + 1)
+        self.budget -= 1 if d > 0 else 0
+        deep = d >= self.max_depth or (self.budget <= 0 and d > 0)
+        if deep or k < 0.24:
+            return self.decl_line(d) if not deep or r.random() < 0.9 else self.decl_line(d, force=True)
+        if self.in_fn and r.random() < 0.08 and any(teq(b[1], U_IS) and any(b is e for e in self.exact) for b in self.visible()):
+            # a parameter of union type: `c := mut p` (un-annotated), then another member is assigned
+            l = self.union_cell(d)
+            if l is not None:
+                return l
+        if self.in_fn and r.random() < 0.07 and self.captured_runtime():
+            # inside a closure over run-time values: an if-set whose binder hides one of them
+            return self.ifset_line(d)
+        if k < 0.30:
+            # `x := if ..` / `x := match ..` / `x := { .. }`
+            t = r.choice([INT, INT, STRING, BOOL, U_IS, ARR_INT])
+            s = self.value_stm(t, d)
+            n = self.binder("v", t) if r.random() < 0.3 else self.fresh()
             self.bind(n, t)
-            self.stat("set")
-            return ["set", n, ["expr", e]]
-        if k < 0.36:
-            a, b = self.fresh(), self.fresh()
-            e = self.expr(TUP_IB, d + 1)
-            self.bind(a, INT)
-            self.bind(b, BOOL)
-            self.stat("destruct")
-            return ["destruct", [a, b], ["expr", e]]
-        if k < 0.44:
-            n = self.fresh("f")
-            p = n if r.random() < 0.15 else self.fresh("p")
-            rt_ = r.choice([INT, BOOL])
-            f = self.fn_expr([[p, INT]], rt_, d)
-            self.bind(n, FN_II if rt_ == INT else FN_IB)   # bound afterwards: no unguarded recursion
-            self.stat("fndecl")
-            return ["fndecl", n, f[1], f[2], f[3]]
-        if k < 0.54:
+            return ["set", n, s]
+        if k < 0.39:
+            return self.fn_scenario(d)
+        if k < 0.46:
             self.stat("if")
             els = None if r.random() < 0.4 else self.block(r.randrange(1, 3), d + 1)
             return ["stm", ["if", self.expr(BOOL, d + 1), self.block(r.randrange(1, 3), d + 1), els]]
-        if k < 0.6:
-            self.stat("ifset")
-            n = self.binder("u")
-            self.scopes.append([(n, INT)])
-            try:
-                body = self.block(1, d + 1)
-            finally:
-                self.scopes.pop()
-            els = None if r.random() < 0.5 else self.block(1, d + 1)
-            k2 = r.random()
-            if k2 < 0.6:
-                return ["stm", ["ifset", n, "int", self.expr(r.choice([U_IS, U_IV]), d + 1), body, els]]
-            # declared type strictly wider than the runtime type of the tested value
-            self.scopes.append([(n, U_IS)])
-            try:
-                body = self.block(1, d + 1)
-            finally:
-                self.scopes.pop()
-            if k2 < 0.8:
-                return ["stm", ["ifset", n, U_IS, self.expr(r.choice([INT, STRING, U_IS]), d + 1), body, els]]
-            return ["stm", ["ifset", n, "any", self.expr(r.choice([INT, STRING, ARR_INT, U_IV]), d + 1),
-                            ["block", ["stm", ["expr", self.expr(INT, d + 1)]]], els]]
-        if k < 0.68:
+        if k < 0.50:
+            return self.pruned(d)
+        if k < 0.56:
+            return self.ifset_line(d)
+        if k < 0.63:
             return ["stm", self.match_stm(d)]
-        if k < 0.78:
+        if k < 0.73:
             return ["stm", self.loop_stm(d)]
-        if k < 0.84 and self.in_loop:
-            self.stat("break/continue")
-            return ["stm", ["if", self.expr(BOOL, d + 1), ["block", ["stm", r.choice(["break", "continue"])]], None]]
-        if k < 0.88 and self.in_fn:
-            self.stat("return")
-            return ["stm", ["if", self.expr(BOOL, d + 1),
-                            ["return", ["expr", self.expr(self.in_fn[-1], d + 1)]], None]]
-        if k < 0.92:
+        if k < 0.78 and (self.loops or self.in_fn):
+            return self.jump_line(d, uncond=r.random() < (0.35 if self.in_mod else 0.06))
+        if k < 0.81:
             self.stat("block")
+            if r.random() < 0.4:
+                # a block whose only declaration is a destructuring
+                self.stat("block.destruct-only")
+                self.push()
+                try:
+                    e = self.expr(TUP_IB, d + 1)
+                    if r.random() < 0.5:
+                        e = self.opaque(e)
+                    a, b = self.binder("v", INT, True), self.binder("v", BOOL, True)
+                    if a == b:
+                        b = self.fresh()
+                    self.bind(a, INT)
+                    self.bind(b, BOOL)
+                    ls = [["destruct", [a, b], ["expr", e]], ["stm", ["expr", self.log(V(a))]]]
+                    if r.random() < 0.3:
+                        ls.append(self.nondecl_line(d + 1))
+                finally:
+                    self.pop()
+                return ["stm", ["block"] + ls]
             return ["stm", self.block(r.randrange(1, 3), d + 1)]
-        if k < 0.95:
-            # assignment through a cell of array type
-            if self.vars_of(MUT_ARR):
-                return ["stm", ["expr", ["bin", r.choice(["=", "+="]), V(r.choice(self.vars_of(MUT_ARR))), self.expr(ARR_INT, d + 1)]]]
+        if k < 0.85:
+            return self.mod_line(d)
+        if k < 0.91:
+            l = self.assign_line(d)
+            if l is not None:
+                return l
+        elif k < 0.925:
+            return self.bump(d) if r.random() < 0.6 else self.reader(d)
+        elif k < 0.945:
+            l = self.union_cell(d)
+            if l is not None:
+                return l
+        elif k < 0.97:
+            l = self.call_line(d)
+            if l is not None:
+                return l
         self.stat("expr-stm")
         return ["stm", ["expr", self.expr(r.choice([INT, BOOL, STRING]), d + 1)]]
+
+    def ifset_line(self, d):
+        r = self.r
+        self.stat("ifset")
+        k2 = r.random()
+        force = bool(self.in_fn) and r.random() < 0.8
+        if force:
+            k2 = 0.0      # the form whose else branch can be taken
+        bt = INT if k2 < 0.6 else U_IS
+        saved, self.pending = self.pending, []
+        n = self.binder("u", bt, force)
+        shadowed, self.pending = self.pending, saved
+        self.pending += shadowed
+        self.push([(n, bt)])
+        try:
+            body = self.block(1, d + 1)
+        finally:
+            self.pop()
+        # the else branch does not see the binder: a shadowed outer name is used there
+        self.push()
+        try:
+            els_lines = self.lines(1, d + 1) if r.random() < 0.6 or shadowed else None
+            if shadowed and els_lines is not None and r.random() < 0.8:
+                w = self.witness(V(shadowed[0][0]), shadowed[0][1])
+                if w is not None:
+                    self.stat("shadow.ifset-else")
+                    if any(shadowed[0] is c for c in self.captured_runtime()):
+                        self.stat("shadow.ifset-else.captured")
+                    els_lines.insert(0, w)
+        finally:
+            self.pop()
+        els = None if els_lines is None else ["block"] + els_lines
+        if k2 < 0.6:
+            if shadowed and r.random() < 0.5:
+                # not an int at run time: the else branch (which uses the shadowed name) is taken
+                scrut = self.expr(STRING, d + 1) if r.random() < 0.7 else VOID
+            else:
+                scrut = self.scrutinee(d)
+            return ["stm", ["ifset", n, "int", scrut, body, els]]
+        # declared type strictly wider than the runtime type of the tested value
+        if k2 < 0.8:
+            return ["stm", ["ifset", n, U_IS, self.expr(r.choice([INT, STRING, U_IS]), d + 1), body, els]]
+        self.push([(n, ANY)])
+        try:
+            body = ["block", ["stm", ["expr", self.expr(INT, d + 1)]]]
+        finally:
+            self.pop()
+        return ["stm", ["ifset", n, "any", self.expr(r.choice([INT, STRING, ARR_INT, U_IV]), d + 1), body, els]]
 
     def match_stm(self, d):
         r = self.r
         k = r.random()
-        if k < 0.5:
+        if k < 0.4:
             self.stat("match.type")
-            scrut = self.expr(r.choice([U_IS, U_IV]), d + 1)
-            n1, n2 = self.binder("m"), self.binder("m")
+            scrut = self.scrutinee(d)
+            wide = self.scrut_type in (ANY, U_IF)
+            n1, n2 = self.binder("m", INT), self.binder("m", None)
             arms = []
-            self.scopes.append([(n1, INT)])
+            self.push([(n1, INT)])
             arms.append(["atype", n1, "int", self.block(1, d + 1)])
-            self.scopes.pop()
+            self.pop()
             if r.random() < 0.5:
-                self.scopes.append([(n2, ["multi", "string", "void"])])
-                arms.append(["atype", n2, ["multi", "string", "void"], self.block(1, d + 1)])
-                self.scopes.pop()
+                ty2 = ANY if wide else r.choice([["multi", "string", "void"], ["multi", "string", "void"], ANY])
+                self.push([(n2, ty2)])
+                arms.append(["atype", n2, ty2, self.block(1, d + 1)])
+                self.pop()
             else:
                 arms.append(["aother", self.block(1, d + 1)])
             return ["match", scrut] + arms
+        if k < 0.65:
+            arm = lambda: ["block", ["stm", ["expr", self.log(I(0))]]] if r.random() < 0.6 else self.block(1, d + 1)
+            return self.const_match(d, arm)
         self.stat("match.value")
         if r.random() < 0.35:
             # union-typed scrutinee, candidates of different types within one arm
@@ -407,51 +1248,102 @@ class Gen:
         arms.append(["aother", self.block(1, d + 1)])
         return ["match", scrut] + arms
 
+    def once_loop(self, d):
+        """`loop { .. if c { break | continue } .. break }`: the body ends in an unconditional break and
+        holds a conditional jump; the hidden counter bounds the number of `continue`s"""
+        r = self.r
+        self.stat("loop.once")
+        c = self.fresh("k")
+        lim = r.randrange(1, 4)
+        self.loops.append((c, lim))
+        self.push()
+        try:
+            n = r.randrange(0, 3)
+            pos = r.randrange(0, n + 1)
+            body = []
+            for i in range(n + 1):
+                if i == pos:
+                    saved, self.in_fn = self.in_fn, []     # break / continue, not return
+                    try:
+                        body.append(self.jump_line(d + 1))
+                    finally:
+                        self.in_fn = saved
+                if i < n:
+                    body += self.lines(1, d + 1)
+        finally:
+            self.pop()
+            self.loops.pop()
+        body = [["stm", ["expr", ["bin", "+=", V(c), I(1)]]]] + body + [["stm", "break"]]
+        return ["block", ["set", c, ["expr", ["mut", None, I(0)]]], ["stm", ["loop", ["block"] + body]]]
+
     def loop_stm(self, d):
         r = self.r
         k = r.random()
-        self.in_loop += 1
+        if k < 0.22:
+            # run-once loop, usually inside another loop whose later statements show whether it was left
+            if self.loops or r.random() < 0.3:
+                return self.once_loop(d)
+            src = self.iter_expr(d + 1)
+            n = self.binder("x", INT)
+            self.loops.append(None)
+            self.push([(n, INT)])
+            try:
+                inner = self.once_loop(d)
+                after = ["stm", ["expr", self.log(V(n))]]
+            finally:
+                self.pop()
+                self.loops.pop()
+            return ["for", n, src, ["block", ["stm", inner], after]]
+        if k < 0.45:
+            self.stat("for")
+            if r.random() < 0.2:
+                # elements of a union type (the loop ends at the end marker; its value is not observed)
+                self.stat("for.union")
+                et, src = U_IF, ["post", self.expr(ARR_IF, d + 1), "~"]
+            else:
+                et, src = INT, self.iter_expr(d + 1)
+            n = self.binder("x", et)
+            self.loops.append(None)
+            self.push([(n, et)])
+            try:
+                body = self.block(r.randrange(1, 3), d + 1)
+            finally:
+                self.pop()
+                self.loops.pop()
+            return ["for", n, src, body]
+        c = self.fresh("k")
+        lim = r.randrange(0, 4)
+        # the counter cell is declared in an enclosing block so that the loop terminates
+        self.loops.append(None)
         try:
-            if k < 0.3:
-                self.stat("for")
-                n = self.binder("x")
-                self.scopes.append([(n, INT)])
-                try:
-                    body = self.block(r.randrange(1, 3), d + 1)
-                finally:
-                    self.scopes.pop()
-                return ["for", n, self.iter_expr(d + 1), body]
-            c = self.fresh("k")
-            lim = r.randrange(0, 4)
-            # the counter cell is declared in an enclosing block so that the loop terminates
-            if k < 0.6:
+            if k < 0.65:
                 self.stat("while")
-                self.scopes.append([])   # the loop counter is not visible to generated code (termination)
+                self.push()   # the loop counter is not visible to generated code (termination)
                 try:
                     body = self.block(r.randrange(0, 2), d + 1)
                 finally:
-                    self.scopes.pop()
+                    self.pop()
                 body = ["block", ["stm", ["expr", ["bin", "+=", V(c), I(1)]]]] + body[1:]
                 return ["block", ["set", c, ["expr", ["mut", None, I(0)]]],
                         ["stm", ["while", ["bin", "<", ["pre", "deref", V(c)], I(lim)], body]]]
-            if k < 0.8:
+            if k < 0.82:
                 self.stat("loop")
-                self.scopes.append([])   # the loop counter is not visible to generated code (termination)
+                self.push()   # the loop counter is not visible to generated code (termination)
                 try:
                     body = self.block(r.randrange(0, 2), d + 1)
                 finally:
-                    self.scopes.pop()
+                    self.pop()
                 guard = ["stm", ["if", ["bin", ">=", ["pre", "deref", V(c)], I(lim)], ["block", ["stm", "break"]], None]]
                 body = ["block", guard, ["stm", ["expr", ["bin", "+=", V(c), I(1)]]]] + body[1:]
                 return ["block", ["set", c, ["expr", ["mut", None, I(0)]]], ["stm", ["loop", body]]]
             self.stat("whileset")
             it = self.fresh("it")
-            n = self.fresh("w")
-            self.scopes.append([(n, INT)])
+            n = self.binder("w", INT)
+            self.push([(n, INT)])
             try:
                 body = self.block(r.randrange(0, 2), d + 1)
             finally:
-                self.scopes.pop()
+                self.pop()
             src = ["post", ["array"] + [self.expr(U_IS, d + 2) for _ in range(r.randrange(1, 4))], "~"]
             # while w: int = it().1 { .. }   stops at the first non-int element (or the end marker's default)
             return ["block", ["set", it, ["expr", src]],
@@ -462,7 +1354,7 @@ class Gen:
                              ["block", ["stm", ["if", ["bin", ">", ["pre", "deref", V(c)], I(1)],
                                                 ["block", ["stm", "break"]], None]]] + body[1:]]]]
         finally:
-            self.in_loop -= 1
+            self.loops.pop()
 
 
 PRELUDE = [
@@ -471,20 +1363,27 @@ PRELUDE = [
         ["stm", ["expr", ["bin", "+=", V("log"), ["array", V("n")]]]],
         ["stm", ["return", ["expr", V("n")]]]]],
 ]
+OBSERVED = [INT, BOOL, STRING, ARR_INT, TUP_IB, U_IS, FLOAT, U_IF, ARR_IF, ARR_IS, ST, ARR_STR]
 
 
 def program(rnd, n_lines=6, max_depth=3):
     g = Gen(rnd, max_depth)
     g.bind("log", MUT_ARR)
     g.bind("t", FN_II)
-    body = g.lines(n_lines, 0)
-    # final observation: a few visible first-order variables and the log
+    body = []
+    while len(body) < n_lines:      # a shape may take several lines
+        body += g.lines(1, 0)
+    # final observation: a few visible first-order variables, cells and the log
     obs = []
-    for t in (INT, BOOL, STRING, ARR_INT, TUP_IB, U_IS):
+    for t in OBSERVED:
         vs = [v for v in g.vars_of(t) if not v.startswith(("p", "x", "m", "u", "w")) or v in Gen.DANGEROUS]
-        if vs:
+        if vs and len(obs) < 7:
             obs.append(V(vs[0]))
+            if len(vs) > 2 and t == INT:
+                obs.append(V(vs[-1]))
     cells = [v for v in g.vars_of(MUT_INT) if v.startswith("v")]
     obs += [["pre", "deref", V(c)] for c in cells[:2]]
+    for t in (MUT_AIF, MUT_U):
+        obs += [["pre", "deref", V(c)] for c in g.vars_of(t)[:1]]
     final = ["stm", ["expr", ["tuple"] + obs + [["pre", "deref", V("log")], I(0)]]]
     return PRELUDE + body + [final], g.stats
